@@ -464,6 +464,15 @@ fn registry() -> Vec<PDef> {
         pd("b64.adaptive.nopad", false, false, false),
         pd("b64.simd_decoder", false, false, false),
         pd("b64.fn", false, false, false),
+        // beyond the anchors: further byte parsers of the same subsystems
+        pd("dzdict.deserialize", false, false, false),
+        pd("simdenc.varint.decode", false, false, true),
+        pd("simdenc.varint.decode_batch", true, false, false),
+        pd("simdenc.base64.decode", false, false, false),
+        pd("simdenc.base64.decode_from_buffer", false, false, false),
+        pd("json.parse", false, false, true),
+        pd("csv.parse_line", false, false, true),
+        pd("adaptive.decompress", false, false, false),
     ];
     for t in ["tuple2", "array4", "option", "result", "hashmap", "hashset", "btreemap", "btreeset"] {
         v.push(pd(Box::leak(format!("complex.meta.{t}").into_boxed_str()), false, false, false));
@@ -1194,6 +1203,97 @@ fn setup(name: &str, pl: &[Vec<u8>], want_encs: bool, cur: Option<&Enc>, tmp: &P
                 _ => Box::new(move |x, _| ad.decode(&lossy(x)).is_ok()),
             }
         }
+        "dzdict.deserialize" => {
+            if want_encs {
+                for (pi, p) in pl.iter().enumerate().take(2) {
+                    let cfg = DictionaryBuilderConfig { target_dict_size: 256, max_dict_size: 512, validate_result: true, ..Default::default() };
+                    if let Ok(d) = DzDictionaryBuilder::with_config(cfg).build(p) {
+                        if let Ok(b) = d.serialize() {
+                            el.add(pi, b, 0, vec![]);
+                        }
+                    }
+                }
+            }
+            Box::new(|x, _| zipora::compression::dict_zip::SuffixArrayDictionary::deserialize(x).is_ok())
+        }
+        "simdenc.varint.decode" | "simdenc.varint.decode_batch" => {
+            use zipora::io::simd_encoding::varint::{decode_varint, decode_varint_batch, encode_varint, encode_varint_batch};
+            if want_encs {
+                if name.ends_with("batch") {
+                    let a: Vec<u64> = vec![0, 1, 127, 128, 300, 70000, 1 << 40, u64::MAX];
+                    let b: Vec<u64> = (0..20u64).map(|i| i * i * 1000).collect();
+                    for (i, v) in [a, b].iter().enumerate() {
+                        if let Ok(e) = encode_varint_batch(v) {
+                            el.add(i, e, v.len(), vec![]);
+                        }
+                    }
+                } else {
+                    for (i, v) in [u64::MAX, 300u64].iter().enumerate() {
+                        if let Ok(e) = encode_varint(*v) {
+                            el.add(i, e, 0, vec![]);
+                        }
+                    }
+                }
+            }
+            if name.ends_with("batch") {
+                Box::new(|x, n| decode_varint_batch(x, n).is_ok())
+            } else {
+                Box::new(|x, _| decode_varint(x).is_ok())
+            }
+        }
+        "simdenc.base64.decode" | "simdenc.base64.decode_from_buffer" => {
+            use zipora::io::simd_encoding::{decode_base64, decode_base64_from_buffer, encode_base64};
+            if want_encs {
+                for (pi, p) in pl.iter().enumerate() {
+                    if let Ok(s) = encode_base64(p) {
+                        el.add(pi, s.into_bytes(), 0, vec![]);
+                    }
+                }
+            }
+            if name.ends_with("buffer") {
+                Box::new(|x, _| {
+                    // a large enough and a too small output buffer
+                    let mut big = vec![0u8; x.len() + 8];
+                    let mut small = vec![0u8; x.len() / 8];
+                    let a = decode_base64_from_buffer(x, &mut big).is_ok();
+                    let b = decode_base64_from_buffer(x, &mut small).is_ok();
+                    a || b
+                })
+            } else {
+                Box::new(|x, _| decode_base64(&lossy(x)).is_ok())
+            }
+        }
+        "json.parse" => {
+            if want_encs {
+                el.add(0, br#"{"a":[1,2.5,-3e2,true,false,null],"b":{"c":"x\ny\u00e9","d":[]},"e":""}"#.to_vec(), 0, vec![]);
+                el.add(1, br#"[[[[1]]],{"k":"v"}]"#.to_vec(), 0, vec![]);
+            }
+            Box::new(|x, _| zipora::io::simd_parsing::parse_json(x).is_ok())
+        }
+        "csv.parse_line" => {
+            if want_encs {
+                el.add(0, b"a,b,\"quoted, with comma\",\"esc\"\"aped\",,last".to_vec(), 0, vec![]);
+                el.add(1, b"1,2,3".to_vec(), 0, vec![]);
+            }
+            Box::new(|x, _| zipora::io::simd_parsing::parse_csv_line(x, b',').is_ok())
+        }
+        "adaptive.decompress" => {
+            use zipora::compression::{AdaptiveCompressor, AdaptiveConfig, PerformanceRequirements};
+            let mk = || AdaptiveCompressor::new(AdaptiveConfig::default(), PerformanceRequirements::default()).ok();
+            if want_encs {
+                if let Some(c) = mk() {
+                    for (pi, p) in pl.iter().enumerate() {
+                        if let Ok(b) = c.compress(p) {
+                            el.add(pi, b, 0, vec![]);
+                        }
+                    }
+                }
+            }
+            match mk() {
+                Some(c) => Box::new(move |x, _| c.decompress(x).is_ok()),
+                None => Box::new(|_, _| false),
+            }
+        }
         _ => {
             eprintln!("c15: unknown parser {name}");
             std::process::exit(2)
@@ -1804,9 +1904,9 @@ fn run_main(a: &Args) -> i32 {
                 "outcomes": {"ok": cnt[1], "err": cnt[2], "panic": cnt[3], "abort": cnt[4], "signal": cnt[5], "timeout": cnt[6], "oom": cnt[7]},
                 "skipped": cnt[8], "bad": bad, "bad_unlisted": unlisted,
             });
-            if seg.kind == b'b' && seg.count == 1 {
+            if seg.kind == b'b' && seg.count == 1 && (seg.variant == "exact" || seg.variant == "-") {
                 base_all += 1;
-                if cnt[1] == 1 && (seg.variant == "exact" || seg.variant == "-") {
+                if cnt[1] == 1 {
                     base_ok += 1;
                 }
             }
